@@ -1377,3 +1377,63 @@ pub use difference::{
 };
 pub use intersection::{Intersection, IntersectionMut};
 pub use union::{Union, UnionItem, UnionMut};
+
+/// Verification hooks: view construction at an arbitrary location and read-back of a view's
+/// location. Only compiled with feature `verif-hooks`.
+#[cfg(feature = "verif-hooks")]
+#[allow(missing_docs)]
+#[doc(hidden)]
+impl<P: Prefix, T> PrefixMap<P, T> {
+    /// `virt = None`: view at node `idx`; `virt = Some(p)`: virtual view with prefix `p` above `idx`.
+    pub fn __verif_view(&self, virt: Option<P>, idx: usize) -> TrieView<'_, P, T> {
+        TrieView {
+            table: &self.table,
+            loc: match virt {
+                None => ViewLoc::Node(idx),
+                Some(p) => ViewLoc::Virtual(p, idx),
+            },
+        }
+    }
+    pub fn __verif_view_mut(&mut self, virt: Option<P>, idx: usize) -> TrieViewMut<'_, P, T> {
+        let loc = match virt {
+            None => ViewLoc::Node(idx),
+            Some(p) => ViewLoc::Virtual(p, idx),
+        };
+        unsafe { TrieViewMut::new(&self.table, loc) }
+    }
+}
+
+#[cfg(feature = "verif-hooks")]
+#[allow(missing_docs)]
+#[doc(hidden)]
+impl<P, T> TrieView<'_, P, T> {
+    /// (prefix of a virtual location, underlying node index)
+    pub fn __verif_loc(&self) -> (Option<&P>, usize) {
+        match &self.loc {
+            ViewLoc::Node(i) => (None, *i),
+            ViewLoc::Virtual(p, i) => (Some(p), *i),
+        }
+    }
+}
+
+#[cfg(feature = "verif-hooks")]
+#[allow(missing_docs)]
+#[doc(hidden)]
+impl<P, T> TrieViewMut<'_, P, T> {
+    pub fn __verif_loc(&self) -> (Option<&P>, usize) {
+        match &self.loc {
+            ViewLoc::Node(i) => (None, *i),
+            ViewLoc::Virtual(p, i) => (Some(p), *i),
+        }
+    }
+}
+
+#[cfg(feature = "verif-hooks")]
+#[doc(hidden)]
+pub use difference::__verif as __verif_difference;
+#[cfg(feature = "verif-hooks")]
+#[doc(hidden)]
+pub use intersection::__verif as __verif_intersection;
+#[cfg(feature = "verif-hooks")]
+#[doc(hidden)]
+pub use union::__verif as __verif_union;
